@@ -418,6 +418,7 @@ func runC06(c *eng.Ctx) {
 
 	// ---- R06.4 snapshot <-> restore agreement, one-sided flags
 	c.Rule("R06.4", "K6")
+	rulePersistedReadonlyFollowsTheLog(c)
 	snapAgreement(c, "Stream", "server.(*Server).Snapshot", []string{"server.(*metadataAPI).AddStream", "server.(*Server).applyCreateStream"})
 	snapAgreement(c, "ConsumerGroup", "server.(*Server).Snapshot", []string{"server.newConsumerGroup", "server.(*metadataAPI).AddConsumerGroup"})
 	snapAgreement(c, "Consumer", "server.(*Server).Snapshot", []string{"server.newConsumerGroup"})
@@ -786,7 +787,28 @@ func liveAlias(c *eng.Ctx, v ssa.Value, depth int) string {
 		return "unknown (depth)"
 	}
 	switch x := v.(type) {
-	case *ssa.Alloc, *ssa.MakeSlice, *ssa.MakeMap:
+	case *ssa.Alloc:
+		// a fresh object filled by copying a live struct BY VALUE shares that struct's slices, maps and pointers
+		if x.Referrers() != nil {
+			for _, r := range *x.Referrers() {
+				st, ok := r.(*ssa.Store)
+				if !ok || st.Addr != ssa.Value(x) {
+					continue
+				}
+				ld, ok := st.Val.(*ssa.UnOp)
+				if !ok || ld.Op != token.MUL {
+					continue
+				}
+				if _, fresh := ld.X.(*ssa.Alloc); fresh {
+					continue
+				}
+				if stt, isStruct := ld.Type().Underlying().(*types.Struct); isStruct && hasReferenceField(stt) {
+					return "a by-value copy of " + eng.Describe(ld.X) + ": the copy shares the slices / maps / pointers of the live object"
+				}
+			}
+		}
+		return ""
+	case *ssa.MakeSlice, *ssa.MakeMap:
 		return ""
 	case *ssa.Const:
 		return ""
@@ -1176,4 +1198,15 @@ func ruleRestoreOrder(c *eng.Ctx) {
 	q := &eng.PathQuery{Fn: fn, FromAfter: []ssa.Instruction{gr[0].(ssa.Instruction)}, Target: func(x ssa.Instruction) bool { return x == st[0].(ssa.Instruction) }}
 	w := q.Find()
 	c.Check(w == nil, "a snapshot restores streams before consumer groups", c.Pos(gr[0].(ssa.Instruction)), "no stream is created after a group was", "Restore can create a consumer group before the streams of the snapshot exist (path "+w.String()+"): newConsumerGroup balances its members over getStreamPartitions(stream), which is 0 for a stream that is not there yet, so after a snapshot install every member is subscribed but no partition has an owner")
+}
+
+// hasReferenceField: does the struct hold a slice, map or pointer (so that a by-value copy aliases memory)?
+func hasReferenceField(st *types.Struct) bool {
+	for i := 0; i < st.NumFields(); i++ {
+		switch st.Field(i).Type().Underlying().(type) {
+		case *types.Slice, *types.Map, *types.Pointer:
+			return true
+		}
+	}
+	return false
 }
